@@ -44,11 +44,18 @@ def run(ck):
     ck.rule("C07.R4", "filter ids are distinct single bits assigned in on_subscribe", floor=4)
     ck.rule("C07.R5", "bitmap typestate: every protocol run ends all-clear and delivers iff accepted", floor=100)
     ck.rule("C07.R5s", "effect summaries extracted from MIR match a recognised shape", floor=9)
+    ck.rule("C07.R6", "per-layer filter combinators (And/Or/Not/Option) publish sound interests and level hints (as C08.R1/R2)", floor=10)
     r1(ck, F)
     r2(ck, F)
     r3(ck, F)
     r4(ck, F)
     r5(ck, R)
+    # A per-layer filter's interest and max-level hint feed the process-wide caches every macro consults first. If a
+    # combinator publishes a tighter hint than its `enabled` admits, what the layer behind it receives depends on
+    # whether some *neighbour* happens to raise the global level again: isolation is lost.
+    from rules import C08
+    C08.r1(ck, F, rid="C07.R6")
+    C08.r2(ck, F, rid="C07.R6")
 
 
 # ------------------------------------------------------------------ R1
